@@ -6,6 +6,7 @@ import (
 	"bufio"
 	"fmt"
 	"io"
+	"os"
 	"os/exec"
 	"strconv"
 	"strings"
@@ -82,6 +83,12 @@ func NewSolver(kind SolverKind, timeoutMs int) (*Solver, error) {
 	} else {
 		s.send(fmt.Sprintf("(set-option :timeout %d)", timeoutMs))
 		s.send("(set-option :model.completion true)")
+	}
+	if p := os.Getenv("SYMGO_SMTLOG"); p != "" {
+		if f, err := os.Create(fmt.Sprintf("%s.%d", p, cmd.Process.Pid)); err == nil {
+			s.log = f
+			fmt.Fprintln(f, "(set-option :timeout 10000)")
+		}
 	}
 	s.send("(push 1)")
 	return s, nil
